@@ -28,7 +28,28 @@ func main() {
 	flag.StringVar(&sinkFilter, "sink", "", "debug: with -dump, only show instructions containing this substring")
 	grepCalls := flag.String("grepcalls", "", "debug: list call sites whose callee key contains the substring")
 	seedsDir := flag.String("seeds", "", "directory of kept seeded changes for the thorough tier's self-test (default: ../seeded next to the binary)")
+	overlayDir := flag.String("overlay", "", "directory whose files (by path relative to it) replace or add to the files of -repo for this run; used by the thorough tier's self-test")
 	flag.Parse()
+	if *overlayDir != "" {
+		ir.Overlay = map[string][]byte{}
+		absRepo, _ := filepath.Abs(*repo)
+		err := filepath.Walk(*overlayDir, func(path string, info os.FileInfo, err error) error {
+			if err != nil || info.IsDir() || !info.Mode().IsRegular() {
+				return err
+			}
+			rel, _ := filepath.Rel(*overlayDir, path)
+			b, err := os.ReadFile(path)
+			if err != nil {
+				return err
+			}
+			ir.Overlay[filepath.Join(absRepo, rel)] = b
+			return nil
+		})
+		if err != nil {
+			fmt.Printf("UNDECIDED: cannot read overlay %s: %v\n", *overlayDir, err)
+			os.Exit(2)
+		}
+	}
 	if os.Getenv("VERIF_TIER") != "" && *tier == "" {
 		*tier = os.Getenv("VERIF_TIER")
 	}
